@@ -1050,15 +1050,17 @@ class Polyhedron(Shape3D):
         """
         old_centroid = self.centroid
         self.centroid = np.array([0, 0, 0])
-        data = self.to_json(
-            ["vertices", "faces", "centroid", "volume", "inertia_tensor"]
-        )
-        hoomd_dict = _map_dict_keys(data, key_mapping=_hoomd_dict_mapping)
-        # Copy: the live vertex array is moved back to the original centroid below.
-        hoomd_dict["vertices"] = hoomd_dict["vertices"].copy()
-        hoomd_dict["sweep_radius"] = 0.0
-
-        self.centroid = old_centroid
+        try:
+            data = self.to_json(
+                ["vertices", "faces", "centroid", "volume", "inertia_tensor"]
+            )
+            hoomd_dict = _map_dict_keys(data, key_mapping=_hoomd_dict_mapping)
+            # Copy: the live vertex array is moved back to the original centroid below.
+            hoomd_dict["vertices"] = hoomd_dict["vertices"].copy()
+            hoomd_dict["sweep_radius"] = 0.0
+        finally:
+            # Move the shape back even if one of the properties could not be computed.
+            self.centroid = old_centroid
         return hoomd_dict
 
     def save(self, filetype, filename):
